@@ -323,11 +323,13 @@ fn main() {
         let (up, ga, de, sh, _mcs) = CFGS[ci];
         let unalloc = rng.chance(2, 3);
         let ma = 1usize << rng.below(5);
+        let mut fail_injected = false;
         BASE.with(|b| {
             let mut b = b.borrow_mut();
             b.reset(tseed);
             b.overgrant = rng.below(4) as u8;
-            if rng.below(100) < prof.fail_pct {
+            fail_injected = rng.below(100) < prof.fail_pct;
+            if fail_injected {
                 match rng.below(3) {
                     0 => b.fail_at = vec![rng.below(6) as usize],
                     1 => b.fail_at = (0..3).map(|_| rng.below(10) as usize).collect(),
@@ -358,7 +360,7 @@ fn main() {
             sh,
             ma0: ma,
             ma_now: ma,
-            fail_injected: false,
+            fail_injected,
             last_allocated: 0,
             next_key: 0,
         };
